@@ -12,15 +12,19 @@ import Model.Ring
                      frame; one refresh request for any number of TOPOLOGY_CHANGE frames),
                      handleNodeUp, handleNodeDown, handleNodeConnected, startPoolFill
     session.go       removeHost (policy.RemoveHost, pool.removeHost, ring.removeHost)
-    host_source.go   refreshRing (the diff loop with its session-level effects IN PROGRAM ORDER),
+    host_source.go   refreshRing (REPAIRED, KF-C16-4 / KF-C16-6: what is gone is removed first, then what is
+                     missing is added, with the session-level effects IN PROGRAM ORDER),
                      GetHosts / hostInfoFromMap / isValidPeer (which rows of system.local / system.peers
-                     become reported hosts), refreshDebouncer (timed protocol)
+                     become reported hosts; REPAIRED, KF-C16-3: a NULL host_id leaves the host id empty),
+                     refreshDebouncer (timed protocol)
+    ring.go          addOrUpdate with HostInfo.update changing a node address (REPAIRED, KF-C16-5)
+    conn.go          recv: EVENT frames are handed to the debouncer in wire order (REPAIRED, KF-C16-2)
     events.go        eventDebouncer (buffer of at most 1000 frames per window)
     policies.go      roundRobinHostPolicy, dcAwareRR (two lists by IsLocal), tokenAwareHostPolicy
                      (own list + fallback; HostUp/HostDown go to the fallback only)
 
   An `RHost` is one `*HostInfo` object (`obj` = identity). Objects are immutable here except for the
-  state flag (kept in `View.down`) and `updateAddr` (HostInfo.update filling broadcast_address).
+  state flag (kept in `View.down`) and `View.updateStored` (HostInfo.update filling address fields).
   Core Lean only.
 -/
 namespace ClusterView
@@ -181,45 +185,27 @@ def View.dispatch (env : Env) (v : View) (topo : Bool) (evs : List (Nat × Chang
 def View.handleBatch (env : Env) (v : View) (b : List Ev) : View :=
   v.dispatch env (hasTopology b) (coalesce b)
 
-/-! ### refreshRing -/
+/-! ### refreshRing (repaired: KF-C16-4, KF-C16-6)
 
-structure RState where
-  v : View
-  prev : List (Nat × RHost)
-
-/-- one iteration of `for _, h := range hosts` in `refreshRing`, effects applied where the code applies them -/
-def refreshStepV (env : Env) (st : RState) (h : RHost) : RState × RefreshResult :=
-  if env.filter h then (st, .ok) else
-  match st.v.ring.addIfMissing h with
-  | (r1, _, false) =>
-    (⟨({ st.v with ring := r1 }).startPoolFill env h, erase st.prev h.id⟩, .ok)
-  | (_, _, true) =>
-    match lookup st.prev h.id with
-    | none => (st, .errCannotFind)
-    | some existing =>
-      if h.caddr == existing.caddr && h.addr == existing.addr then
-        (⟨st.v, erase st.prev h.id⟩, .ok)
-      else
-        let v2 := st.v.removeHost env existing
-        match v2.ring.addIfMissing h with
-        | (_, _, true) => (⟨v2, st.prev⟩, .errAlreadyExists)
-        | (r3, _, false) => (⟨({ v2 with ring := r3 }).startPoolFill env h, erase st.prev h.id⟩, .ok)
-
-def refreshLoopV (env : Env) : List RHost → RState → RState × RefreshResult
-  | [], st => (st, .ok)
-  | h :: t, st =>
-    let (st', res) := refreshStepV env st h
-    if res = .ok then refreshLoopV env t st' else (st', res)
+Pass 1 removes (`Session.removeHost`: policy, pool, ring) every host of the ring that is not reported any
+more or is reported with another connect / node address; pass 2 adds every accepted reported host whose
+id is missing (`addHostIfMissing` + `startPoolFill`). Of a host id reported twice the first accepted row
+counts (`reportedMap`, `stays`, `removeAll`: Model/Ring.lean). -/
 
 def removeAllV (env : Env) (v : View) : List (Nat × RHost) → View
   | [] => v
   | (_, h) :: t => removeAllV env (v.removeHost env h) t
 
-/-- `refreshRing` given the hosts `GetHosts` returned -/
-def View.refresh (env : Env) (v : View) (reported : List RHost) : View × RefreshResult :=
-  match refreshLoopV env reported ⟨v, v.ring.byId⟩ with
-  | (st, .ok) => (removeAllV env st.v st.prev, .ok)
-  | (st, e) => (st.v, e)
+/-- one iteration of the second loop for an accepted host (see `Ring.addStep`) -/
+def addStepV (env : Env) (v : View) (h : RHost) : View :=
+  match v.ring.addIfMissing h with
+  | (r1, _, false) => ({ v with ring := r1 }).startPoolFill env h
+  | (_, _, true) => v
+
+/-- `refreshRing` given the hosts `GetHosts` returned; it cannot fail -/
+def View.refresh (env : Env) (v : View) (reported : List RHost) : View :=
+  let gone := v.ring.byId.filter (fun e => !stays (reportedMap env.filter reported) e)
+  (reported.filter (fun h => !env.filter h)).foldl (addStepV env) (removeAllV env v gone)
 
 /-! ### GetHosts: rows of system.local / system.peers → reported hosts
 
@@ -254,10 +240,14 @@ def Row.host (r : Row) (obj ca : Nat) : Option RHost :=
   | some c => some ⟨obj, r.id, r.nodeAddr, c⟩
 
 /-- `isValidPeer` as the code evaluates it on a row: a NULL inet cell gives a nil address (0.0.0.0 is a
-non-empty address); a NULL `host_id` cell is scanned into the zero UUID, whose string is
-"00000000-0000-0000-0000-000000000000", NOT "": the `hostId == ""` test never fires on a row that has
-the column, so a peer row without host id is accepted (as host id 0). -/
-def Row.validPeer (r : Row) : Bool := r.rpc != 0 && r.dc != 0 && r.rack != 0 && r.tokens != 0
+non-empty address); a NULL `host_id` cell is scanned into the zero UUID, for which `hostInfoFromMap`
+(REPAIRED, KF-C16-3) leaves `hostId` empty, so that `host.hostId == ""` fires. -/
+def Row.validPeer (r : Row) : Bool :=
+  !(r.rpc == 0 || r.id == 0 || r.dc == 0 || r.rack == 0 || r.tokens == 0)
+
+/-- `isValidPeer` before the repair of KF-C16-3 (kept for the regression example only): the zero UUID's string
+"00000000-0000-0000-0000-000000000000" is not "", the `hostId == ""` test never fired on a row that has the column -/
+def Row.validPeerOld (r : Row) : Bool := r.rpc != 0 && r.dc != 0 && r.rack != 0 && r.tokens != 0
 
 /-- what the property calls a valid peer row: all of rpc_address, host_id, data_center, rack, tokens present -/
 def Row.validPeerSpec (r : Row) : Bool := r.rpc != 0 && r.id != 0 && r.dc != 0 && r.rack != 0 && r.tokens != 0
@@ -308,14 +298,25 @@ def Addrs.update (h src : Addrs) : Addrs :=
 
 def Addrs.nodeAddr (a : Addrs) : Nat := if a.bcast != 0 then a.bcast else a.peer
 
-def setAC (a c : Nat) (h : RHost) (obj : Nat) : RHost := if h.obj == obj then { h with addr := a, caddr := c } else h
+/-- `ring.addOrUpdate(host)` finding host id `id` stored, `HostInfo.update` leaving the stored object with
+node address `a` and connectAddress field `c`: every reference to the object (ring, pools, policy lists)
+sees the new fields, and the by-address index is re-keyed (`Ring.updateStored`: repaired, KF-C16-5).
+The references are found by value: in a view that satisfies the invariant of all histories every pool and
+policy entry of the host id IS the ring's object. -/
+def View.updateStored (v : View) (id a c : Nat) : View :=
+  match lookup v.ring.byId id with
+  | none => v
+  | some h =>
+    let h' : RHost := { h with addr := a, caddr := c }
+    let f : RHost → RHost := fun x => if x == h then h' else x
+    { v with
+      ring := v.ring.updateStored id a c
+      pools := v.pools.map (fun e => (e.1, f e.2))
+      pol := { ta := v.pol.ta.map f, loc := v.pol.loc.map f, rem := v.pol.rem.map f } }
 
-/-- every reference to the object sees the new fields; the by-address index is NOT touched -/
-def View.updateObj (v : View) (obj a c : Nat) : View :=
-  { v with
-    ring := { v.ring with byId := v.ring.byId.map (fun e => (e.1, setAC a c e.2 obj)), list := v.ring.list.map (setAC a c · obj) }
-    pools := v.pools.map (fun e => (e.1, setAC a c e.2 obj))
-    pol := { ta := v.pol.ta.map (setAC a c · obj), loc := v.pol.loc.map (setAC a c · obj), rem := v.pol.rem.map (setAC a c · obj) } }
+/-- the same before the repair of KF-C16-5 (regression example only) -/
+def View.updateStoredOld (v : View) (id a c : Nat) : View :=
+  { v.updateStored id a c with ring := v.ring.updateStoredOld id a c }
 
 /-! ### the property's oracles, evaluated on a view (the harness evaluates the same predicates on the
 snapshots of the real Session) -/
@@ -330,7 +331,8 @@ def View.storedMatches (v : View) (h : RHost) : Bool :=
 
 /-- clauses of "the view follows the report" that do NOT hold: 1 ring ids ⊆ accepted ids, 2 accepted ids ⊆
 ring ids, 3 pools only of accepted ids, 4 policy entries only of accepted ids, 5 every id new in the ring
-(not in `prevIds`) has a pool, 6 the stored object of every accepted host has the reported addresses -/
+(not in `prevIds`) has a pool, 6 the stored object of every accepted host that is the first accepted row of
+its host id has the reported addresses -/
 def View.followsViolations (env : Env) (prevIds : List Nat) (v : View) (reported : List RHost) : List Nat :=
   let acc := reported.filter (fun h => !env.filter h)
   let accIds := acc.map (·.id)
@@ -339,11 +341,16 @@ def View.followsViolations (env : Env) (prevIds : List Nat) (v : View) (reported
   (if subsetB (v.pools.map (·.1)) accIds then [] else [3]) ++
   (if subsetB (v.pol.all.map (·.id)) accIds then [] else [4]) ++
   (if (v.ring.ids.filter (fun id => !prevIds.contains id)).all (fun id => hasKey v.pools id) then [] else [5]) ++
-  (if acc.all v.storedMatches then [] else [6])
+  (if acc.all (fun h => lookup (acc.map (fun x => (x.id, x))) h.id != some h || v.storedMatches h) then [] else [6])
 
-/-- host ids new in the ring (not in `prevIds`) whose stored object is in neither fallback list of the policy -/
-def View.newNotInPolicy (prevIds : List Nat) (v : View) : List Nat :=
-  (v.ring.byId.filter (fun e => !prevIds.contains e.1 && !(v.pol.loc.contains e.2 || v.pol.rem.contains e.2))).map (·.1)
+/-- `s` is in the policy's lists: in the token-aware list when the policy is token aware, and in one of the fallback's lists -/
+def Policy.has (env : Env) (p : Policy) (s : RHost) : Bool :=
+  (!env.tokenAware || p.ta.contains s) && (p.loc.contains s || p.rem.contains s)
+
+/-- host ids whose stored object is new in the ring (not among the objects `prev` of the ring before the
+refresh: a new node, or the new object of a node whose address changed) and is NOT in the policy's lists -/
+def View.newNotInPolicy (env : Env) (prev : List RHost) (v : View) : List Nat :=
+  (v.ring.byId.filter (fun e => !prev.contains e.2 && !v.pol.has env e.2)).map (·.1)
 
 /-- the objects of `tracked` that the executor could use: in a policy list, state up, pool present -/
 def View.offeredObjs (v : View) (tracked : List Nat) : List Nat :=
@@ -357,6 +364,37 @@ def debounceAdd (buf : List Ev) (e : Ev) : List Ev := if buf.length < eventBuffe
 
 /-- the frames handed to `handleNodeEvent` for a burst received within one debounce window -/
 def debounced (burst : List Ev) : List Ev := burst.foldl debounceAdd []
+
+/-! ### Conn.recv → Session.handleEvent → eventDebouncer (repaired, KF-C16-2)
+
+A frame on stream -1 is parsed and appended to the node-event debouncer's buffer by the reader goroutine
+ITSELF (`c.session.handleEvent(framer)`), before the next frame is read: the buffer holds the event
+frames in wire order. Frames of other streams go to their callers, schema events to the other debouncer. -/
+
+inductive WireFrame
+  | nodeEvent (e : Ev)        -- stream -1, TOPOLOGY_CHANGE / STATUS_CHANGE
+  | schemaEvent               -- stream -1, SCHEMA_CHANGE
+  | response (stream : Nat)   -- a response to a request of this connection
+deriving DecidableEq, Repr
+
+def recvStep (buf : List Ev) : WireFrame → List Ev
+  | .nodeEvent e => debounceAdd buf e
+  | _ => buf
+
+/-- the node-event debouncer's buffer after the reader goroutine has processed these frames (one window) -/
+def recvBuffer (wire : List WireFrame) : List Ev := wire.foldl recvStep []
+
+/-- the node events of a wire sequence, in wire order -/
+def wireEvents : List WireFrame → List Ev
+  | [] => []
+  | .nodeEvent e :: t => e :: wireEvents t
+  | _ :: t => wireEvents t
+
+/-- before the repair (regression example only): `go c.session.handleEvent(framer)` — one goroutine per frame,
+the frames reach the buffer in the order `sched` in which the goroutines happen to run (a permutation of
+the positions of the node events) -/
+def recvBufferOld (wire : List WireFrame) (sched : List Nat) : List Ev :=
+  (sched.filterMap (fun i => (wireEvents wire)[i]?)).foldl debounceAdd []
 
 /-! ### refreshDebouncer (host_source.go) with logical time
 
@@ -396,5 +434,44 @@ def rstep (interval : Nat) (d : RDeb) : RAct → RDeb
   | .done => { d with busy := false }
 
 def rrun (interval : Nat) (d : RDeb) (as : List RAct) : RDeb := as.foldl (rstep interval) d
+
+/-! ### refreshRing BEFORE the repairs of KF-C16-4 / KF-C16-6 (kept for the regression examples only): one
+loop that adds new hosts and replaces moved ones, a host id reported twice aborts it, the vanished hosts are
+removed afterwards -/
+
+inductive RefreshResult | ok | errCannotFind | errAlreadyExists
+deriving DecidableEq, Repr
+
+structure RState where
+  v : View
+  prev : List (Nat × RHost)
+
+def refreshStepVOld (env : Env) (st : RState) (h : RHost) : RState × RefreshResult :=
+  if env.filter h then (st, .ok) else
+  match st.v.ring.addIfMissing h with
+  | (r1, _, false) =>
+    (⟨({ st.v with ring := r1 }).startPoolFill env h, erase st.prev h.id⟩, .ok)
+  | (_, _, true) =>
+    match lookup st.prev h.id with
+    | none => (st, .errCannotFind)
+    | some existing =>
+      if h.caddr == existing.caddr && h.addr == existing.addr then
+        (⟨st.v, erase st.prev h.id⟩, .ok)
+      else
+        let v2 := st.v.removeHost env existing
+        match v2.ring.addIfMissing h with
+        | (_, _, true) => (⟨v2, st.prev⟩, .errAlreadyExists)
+        | (r3, _, false) => (⟨({ v2 with ring := r3 }).startPoolFill env h, erase st.prev h.id⟩, .ok)
+
+def refreshLoopVOld (env : Env) : List RHost → RState → RState × RefreshResult
+  | [], st => (st, .ok)
+  | h :: t, st =>
+    let (st', res) := refreshStepVOld env st h
+    if res = .ok then refreshLoopVOld env t st' else (st', res)
+
+def View.refreshOld (env : Env) (v : View) (reported : List RHost) : View × RefreshResult :=
+  match refreshLoopVOld env reported ⟨v, v.ring.byId⟩ with
+  | (st, .ok) => (removeAllV env st.v st.prev, .ok)
+  | (st, e) => (st.v, e)
 
 end ClusterView
